@@ -57,6 +57,13 @@ def cases(tier, seed, args):
             for avg in (True, False):
                 out.append(dict(t='container', fn=fn, rd=rd, prefix='p_' if rd == 'prefix' else '', avg=avg,
                                 seed=int(rng.integers(1 << 30))))
+        # any string is a prefix: no / several trailing underscores, other separators, a single letter
+        for j, pfx in enumerate(['in', 'mix__', 'a.b/', 'x', '_', 'input_']):
+            out.append(dict(t='container', fn=fn, rd='prefix', prefix=pfx, avg=bool(j % 2), seed=int(rng.integers(1 << 30))))
+    # estimates exactly orthogonal to their reference (disjoint supports): the ratio is 0, the SI-SDR minus infinity
+    for i in range(4 if q else 16):
+        out.append(dict(t='sisdr', T=int(rng.choice([8, 16, 33])), lead=int(rng.integers(1, 4)), seed=int(rng.integers(1 << 30)), scale=[1.0, 1e-3, 1e6, 1.0][i % 4],
+                        scale_ref=1.0, orth=True))
     return out
 
 
@@ -81,12 +88,19 @@ def run_case(case):
         ref[:, 0] = np.where(np.abs(ref).sum(-1) == 0, 1, ref[:, 0])
         # gain of either polarity: the optimal scaling alpha = <s, s_hat> / <s, s> carries the sign
         est = ref * rng.choice([1, 2, -1, -2, 1, 2], size=(L, 1)) + rng.integers(-hi, hi + 1, size=(L, T))
+        if case.get('orth'):
+            half = T // 2
+            ref[:, half:] = 0
+            ref[:, 0] = np.where(ref[:, 0] == 0, 1, ref[:, 0])
+            est = rng.integers(-hi, hi + 1, size=(L, T))
+            est[:, :half] = 0
+            est[:, -1] = np.where(est[:, -1] == 0, 1, est[:, -1])
         e, r = est * case['scale'], ref * case['scale_ref']
         d0 = (enc.digest(e), enc.digest(r))
         out, exc = _call(module_si_sdr.si_sdr, r.astype(np.float64), e.astype(np.float64))
         return [dict(kind='sisdr', est=enc.aint(est), ref=enc.aint(ref), exc=exc,
                      out=[] if out is None else enc.aflt(_lin(np.atleast_1d(out))),
-                     fp='fn=si_sdr', key=f'sisdr:{case["seed"]}')]
+                     fp='fn=si_sdr' + (';orthogonal' if case.get('orth') else ''), key=f'sisdr:{case["seed"]}')]
     if t == 'sisdr_hi':
         T, L = case['T'], case['lead']
         ref = rng.integers(-6, 7, size=(L, T))
@@ -203,5 +217,5 @@ def run_case(case):
             same = all(pfx + k in res and np.array_equal(np.asarray(res[pfx + k]), np.asarray(v), equal_nan=True)
                        for k, v in zip(('sdr', 'sir', 'snr'), tuple(ref)))
         return [dict(kind='container', rd=case['rd'], prefix=case['prefix'], type=typ, keys=keys, exc=exc, values_same=bool(same),
-                     fp=f'fn={case["fn"]}_sxr;return_dict={case["rd"]}', key=f'cont:{case["fn"]}:{case["rd"]}:{case["avg"]}')]
+                     fp=f'fn={case["fn"]}_sxr;return_dict={case["rd"]}', key=f'cont:{case["fn"]}:{case["rd"]}:{case["avg"]}:{case["prefix"]}')]
     raise ValueError(t)
